@@ -30,9 +30,12 @@ Qed.
 
 Lemma tval_eqb_eq a b : tval_eqb a b = true <-> a = b.
 Proof.
-  destruct a as [x|x], b as [y|y]; cbn [tval_eqb]; try (split; [discriminate|discriminate]).
+  destruct a as [x|x|[xn xd] x], b as [y|y|[yn yd] y]; cbn [tval_eqb]; try (split; [discriminate|discriminate]).
   - rewrite Z.eqb_eq. split; [intros ->; reflexivity|intros H; inversion H; reflexivity].
   - rewrite str_eqb_eq. split; [intros ->; reflexivity|intros H; inversion H; reflexivity].
+  - cbn [Qnum Qden]. rewrite !andb_true_iff, !Z.eqb_eq, str_eqb_eq. split.
+    + intros [[-> H] ->]. inversion H. reflexivity.
+    + intros H. inversion H. auto.
 Qed.
 
 Lemma otval_eqb_eq a b : otval_eqb a b = true <-> a = b.
@@ -67,7 +70,8 @@ Definition tag_absent (r : read) (t : str) : Prop := get_tag r t = None.
 
 (* value of the NM tag as int(): an integer tag, or a string that is a plain integer literal *)
 Definition nm_value (r : read) (n : Z) : Prop :=
-  tag_is r t_NM (TInt n) \/ exists s, tag_is r t_NM (TStr s) /\ parse_int s = Some n.
+  tag_is r t_NM (TInt n) \/ (exists s, tag_is r t_NM (TStr s) /\ parse_int s = Some n)
+  \/ (exists q s, tag_is r t_NM (TFlt q s) /\ n = trunc_Q q).
 
 (* an XA entry naming a contig that is not an alternative contig *)
 Definition xa_has_nonalt (r : read) : Prop :=
@@ -105,7 +109,7 @@ Qed.
 
 Lemma mp_unique_iff r : mp_unique r = true <-> tag_is r t_mp (TStr s_unique).
 Proof.
-  unfold mp_unique, tag_eq_str, tag_is. destruct (get_tag r t_mp) as [[z|s]|]; try (split; [discriminate|discriminate]).
+  unfold mp_unique, tag_eq_str, tag_is. destruct (get_tag r t_mp) as [[z|s|q s]|]; try (split; [discriminate|discriminate]).
   rewrite str_eqb_eq. split; [intros ->; reflexivity|intros H; inversion H; reflexivity].
 Qed.
 
@@ -113,23 +117,27 @@ Lemma nm_ok_iff o r : nm_ok o r = true <-> (forall m n, o_max_edits o = Some m -
 Proof.
   unfold nm_ok, nm_value, tag_is. destruct (o_max_edits o) as [m|].
   2:{ split; [intros _ m n H; discriminate|reflexivity]. }
-  destruct (get_tag r t_NM) as [[z|s]|].
+  destruct (get_tag r t_NM) as [[z|s|q s]|].
   - rewrite Z.leb_le. split.
-    + intros Hle m' n Hm [Hn|(s & Hn & _)]; inversion Hm; inversion Hn; subst; assumption.
+    + intros Hle m' n Hm [Hn|[(s & Hn & _)|(q & s & Hn & _)]]; inversion Hm; inversion Hn; subst; assumption.
     + intros H. apply (H m z); [reflexivity|left; reflexivity].
   - destruct (parse_int s) as [n|] eqn:Hp.
     + rewrite Z.leb_le. split.
-      * intros Hle m' n' Hm [Hn|(s' & Hn & Hp')]; inversion Hm; inversion Hn; subst.
+      * intros Hle m' n' Hm [Hn|[(s' & Hn & Hp')|(q & s' & Hn & _)]]; inversion Hm; inversion Hn; subst.
         rewrite Hp in Hp'. inversion Hp'. subst. assumption.
-      * intros H. apply (H m n); [reflexivity|]. right. exists s. auto.
-    + split; [|reflexivity]. intros _ m' n' Hm [Hn|(s' & Hn & Hp')]; inversion Hn; subst.
+      * intros H. apply (H m n); [reflexivity|]. right. left. exists s. auto.
+    + split; [|reflexivity]. intros _ m' n' Hm [Hn|[(s' & Hn & Hp')|(q & s' & Hn & _)]]; inversion Hn; subst.
       rewrite Hp in Hp'. discriminate.
-  - split; [|reflexivity]. intros _ m' n' _ [Hn|(s' & Hn & _)]; discriminate.
+  - rewrite Z.leb_le. split.
+    + intros Hle m' n Hm [Hn|[(s' & Hn & _)|(q' & s' & Hn & Hq)]]; inversion Hm; inversion Hn; subst; assumption.
+    + intros H. apply (H m (trunc_Q q)); [reflexivity|]. right. right. exists q, s. split; reflexivity.
+  - split; [|reflexivity]. intros _ m' n' _ [Hn|[(s' & Hn & _)|(q & s' & Hn & _)]]; discriminate.
 Qed.
 
 Lemma xa_nonalt_iff r : xa_nonalt r = true <-> xa_has_nonalt r.
 Proof.
-  unfold xa_nonalt, xa_has_nonalt, tag_is. destruct (get_tag r t_XA) as [[z|s]|].
+  unfold xa_nonalt, xa_has_nonalt, tag_is. destruct (get_tag r t_XA) as [[z|s|q s0]|].
+  3:{ split; [discriminate|]. intros (s & e & H & _). discriminate. }
   - split; [discriminate|]. intros (s & e & H & _). discriminate.
   - rewrite existsb_exists. split.
     + intros (e & Hin & He). unfold xa_nonalt_entry in He. apply andb_true_iff in He. destruct He as [He1 He2].
@@ -221,10 +229,11 @@ Proof. unfold cig_has, has_op. destruct (cigar r); [discriminate|]. intros H. in
 Lemma nm_exceeds_ok o r b : nm_exceeds o r = Ok b -> b = negb (nm_ok o r).
 Proof.
   unfold nm_exceeds, nm_ok. destruct (o_max_edits o) as [m|]; [|intros H; inversion H; reflexivity].
-  destruct (get_tag r t_NM) as [[z|s]|]; cbn [py_int].
+  destruct (get_tag r t_NM) as [[z|s|q s]|]; cbn [py_int].
   - intros H. inversion H. rewrite Z.leb_antisym, negb_involutive. reflexivity.
   - destruct (parse_int s) as [n|]; [|discriminate]. intros H. inversion H.
     rewrite Z.leb_antisym, negb_involutive. reflexivity.
+  - intros H. inversion H. rewrite Z.leb_antisym, negb_involutive. reflexivity.
   - intros H. inversion H. reflexivity.
 Qed.
 
@@ -240,7 +249,7 @@ Qed.
 
 Lemma xa_hit_ok r b : xa_hit r = Ok b -> b = xa_nonalt r.
 Proof.
-  unfold xa_hit, xa_nonalt. destruct (get_tag r t_XA) as [[z|s]|]; [discriminate|apply xa_scan_ok|].
+  unfold xa_hit, xa_nonalt. destruct (get_tag r t_XA) as [[z|s|q s]|]; [discriminate|apply xa_scan_ok|discriminate|].
   intros H. inversion H. reflexivity.
 Qed.
 
@@ -336,9 +345,12 @@ Lemma wf_read_inv r : wf_read r = true ->
   /\ (forall s, get_tag r t_XA = Some (TStr s) -> forallb xa_entry_ok (split [59] s) = true)
   /\ (forall z, get_tag r t_XA <> Some (TInt z))
   /\ (forall s, get_tag r t_NH <> Some (TStr s))
-  /\ get_tag r t_NH <> Some (TInt 0).
+  /\ get_tag r t_NH <> Some (TInt 0)
+  /\ (forall q s, get_tag r t_XA <> Some (TFlt q s))
+  /\ (forall q s, get_tag r t_NH <> Some (TFlt q s)).
 Proof.
-  unfold wf_read. rewrite !andb_true_iff. intros [[[H1 H2] H3] H4]. repeat split.
+  unfold wf_read. rewrite !andb_true_iff. intros [[[H1 H2] H3] H4].
+  split; [|split; [|split; [|split; [|split; [|split; [|split]]]]]].
   - apply orb_true_iff in H1. destruct H1 as [H1|H1]; [left; assumption|right].
     apply andb_true_iff in H1. destruct H1 as [Hc He]. split.
     + destruct (cigar r); [discriminate|discriminate].
@@ -348,6 +360,8 @@ Proof.
   - intros z E. rewrite E in H3. discriminate.
   - intros s E. rewrite E in H4. discriminate.
   - intros E. rewrite E in H4. discriminate.
+  - intros q s E. rewrite E in H3. discriminate.
+  - intros q s E. rewrite E in H4. discriminate.
 Qed.
 
 Lemma xa_scan_total : forall es, forallb xa_entry_ok es = true -> exists b, xa_scan es = Ok b.
@@ -367,7 +381,7 @@ Proof. reflexivity. Qed.
 
 Lemma should_count_total o r : wf_read r = true -> exists b, should_count o r = Ok b.
 Proof.
-  intros Hwf. apply wf_read_inv in Hwf. destruct Hwf as (Hmap & Hnm & Hxa & Hxai & _ & _).
+  intros Hwf. apply wf_read_inv in Hwf. destruct Hwf as (Hmap & Hnm & Hxa & Hxai & _ & _ & Hxaf & _).
   unfold should_count.
   do 6 (apply guard_total; [eexists; reflexivity|]).
   destruct (unmapped r) eqn:Eu; [rewrite guard_true; eauto|].
@@ -378,13 +392,14 @@ Proof.
   apply guard_total. { destruct (o_no_indels o); [apply Hcig|eauto]. }
   apply guard_total.
   { unfold nm_exceeds. destruct (o_max_edits o) as [m|]; [|eauto].
-    destruct (get_tag r t_NM) as [[n|s]|] eqn:En; cbn [py_int]; eauto. exfalso. exact (Hnm s eq_refl). }
+    destruct (get_tag r t_NM) as [[n|s|q s]|] eqn:En; cbn [py_int]; eauto. exfalso. exact (Hnm s eq_refl). }
   apply guard_total. { destruct (o_no_softclips o); [apply Hcig|eauto]. }
   apply guard_total.
   { destruct (o_filterXA o); [|eauto]. unfold xa_hit.
-    destruct (get_tag r t_XA) as [[n|s]|] eqn:Ex; eauto.
+    destruct (get_tag r t_XA) as [[n|s|q s]|] eqn:Ex; eauto.
     - exfalso. exact (Hxai n eq_refl).
-    - apply xa_scan_total. apply Hxa. reflexivity. }
+    - apply xa_scan_total. apply Hxa. reflexivity.
+    - exfalso. exact (Hxaf q s eq_refl). }
   apply guard_total; [eexists; reflexivity|].
   apply guard_total; [|eauto].
   unfold bl_hit. destruct (o_blacklist o) as [bl|]; [|eauto]. destruct (refname r) as [c|]; [|eauto].
@@ -423,22 +438,26 @@ Lemma weight_pure o r w : weight o r = Ok w -> (w == pure_weight o r)%Q.
 Proof.
   unfold weight, pure_weight, hits. destruct (o_div_multi o).
   2:{ intros H. inversion H. symmetry. apply Qdiv_1. }
-  destruct (get_tag r t_XA) as [[z|s]|].
+  destruct (get_tag r t_XA) as [[z|s|q s]|].
   - discriminate.
   - intros H. inversion H. reflexivity.
-  - destruct (get_tag r t_NH) as [[n|s]|]; cbn [py_int].
+  - discriminate.
+  - destruct (get_tag r t_NH) as [[n|s|q s]|]; cbn [py_int].
     + destruct (n =? 0); [discriminate|]. intros H. inversion H. reflexivity.
     + destruct (parse_int s) as [n|]; [|discriminate]. destruct (n =? 0); [discriminate|].
       intros H. inversion H. reflexivity.
+    + destruct (trunc_Q q =? 0); [discriminate|]. intros H. inversion H. reflexivity.
     + intros H. inversion H. symmetry. apply Qdiv_1.
 Qed.
 
 Lemma weight_total o r : wf_read r = true -> exists w, weight o r = Ok w.
 Proof.
-  intros Hwf. apply wf_read_inv in Hwf. destruct Hwf as (_ & _ & _ & Hxai & Hnhs & Hnh0).
+  intros Hwf. apply wf_read_inv in Hwf. destruct Hwf as (_ & _ & _ & Hxai & Hnhs & Hnh0 & Hxaf & Hnhf).
   unfold weight. destruct (o_div_multi o); [|eauto].
-  destruct (get_tag r t_XA) as [[z|s]|] eqn:Ex; [exfalso; exact (Hxai z eq_refl)|eauto|].
-  destruct (get_tag r t_NH) as [[n|s]|] eqn:En; cbn [py_int]; [|exfalso; exact (Hnhs s eq_refl)|eauto].
+  destruct (get_tag r t_XA) as [[z|s|q s]|] eqn:Ex;
+    [exfalso; exact (Hxai z eq_refl)|eauto|exfalso; exact (Hxaf q s eq_refl)|].
+  destruct (get_tag r t_NH) as [[n|s|q s]|] eqn:En; cbn [py_int];
+    [|exfalso; exact (Hnhs s eq_refl)|exfalso; exact (Hnhf q s eq_refl)|eauto].
   destruct (n =? 0) eqn:E0; [|eauto]. apply Z.eqb_eq in E0. subst n. exfalso. exact (Hnh0 eq_refl).
 Qed.
 
